@@ -33,8 +33,12 @@
   (ite (isCh30 (eff30_S c))
        (roundup10 (rmin (* 1.08 (+ (mimpact30 c) (mexpl30 c))) 10.0))
        (roundup10 (rmin (+ (mimpact30 c) (mexpl30 c)) 10.0))))
-(define-fun envFrom30 ((ik Int) (c CVSS30)) Int
-  (ite (<= (mimpact30 c) 0.0) 0 (roundup10 (* (/ (to_real ik) 10.0) (tw30 c)))))
+; the zero-impact flag and the outer stage as a function of (flag, inner value, temporal metrics):
+; the flag and the inner value are the two cut points of the case split (DESIGN 3.3)
+(define-fun envZero30 ((c CVSS30)) Bool (<= (mimpact30 c) 0.0))
+(define-fun envFromZ30 ((z Bool) (ik Int) (c CVSS30)) Int
+  (ite z 0 (roundup10 (* (/ (to_real ik) 10.0) (tw30 c)))))
+(define-fun envFrom30 ((ik Int) (c CVSS30)) Int (envFromZ30 (envZero30 c) ik c))
 (define-fun env30K ((c CVSS30)) Int (envFrom30 (envInner30K c) c))
 
 ; ---- ParseVector (C01, C06, C13, C18): reference fold over the '/'-separated elements ----
